@@ -1216,6 +1216,10 @@ def transform(fn, proceed, to_instrument=True, set_conformer=True):
             f" statement (got {fn})"
         )
     tree.decorator_list = []
+    # The default values are taken from fn itself rather than evaluated again
+    # (they may refer to names that only exist where fn was defined).
+    tree.args.defaults = []
+    tree.args.kw_defaults = [None for _ in tree.args.kwonlyargs]
 
     fnsym = _gensym()
     glb = fn.__globals__
@@ -1287,6 +1291,8 @@ def transform(fn, proceed, to_instrument=True, set_conformer=True):
     else:
         actual_fn = scratch[fname]
 
+    actual_fn.__defaults__ = fn.__defaults__
+    actual_fn.__kwdefaults__ = fn.__kwdefaults__
     glb[fnsym] = actual_fn
 
     all_vars = transformer.used | transformer.assigned
